@@ -2,7 +2,12 @@
 
 package protoprint
 
-import "google.golang.org/protobuf/reflect/protoreflect"
+import (
+	"bytes"
+
+	"github.com/pentops/j5/internal/j5s/protoprint/optionreflect"
+	"google.golang.org/protobuf/reflect/protoreflect"
+)
 
 // Verification-only exports (build tag "verif"): scope shortening of type names.
 
@@ -11,3 +16,32 @@ func VerifContextRefName(contextOfCall protoreflect.Descriptor, refElement proto
 }
 
 func VerifDefaultJSONName(name string) string { return defaultJSONName(name) }
+
+// VerifOption is one option of an element: the name as printed, the value tree
+// the printer walks (after Simplify) and the text printOption writes for it.
+type VerifOption struct {
+	Name string
+	Root optionreflect.OptionField
+	Text string
+}
+
+// VerifPrintOptions runs the option printer on every option of one element.
+func VerifPrintOptions(elem protoreflect.Descriptor) ([]VerifOption, error) {
+	var extensions *optionreflect.Builder
+	roots, err := extensions.OptionsFor(elem)
+	if err != nil {
+		return nil, err
+	}
+	toPrint, err := extensions.OptionsFor(elem)
+	if err != nil {
+		return nil, err
+	}
+	out := make([]VerifOption, 0, len(roots))
+	for idx, opt := range roots {
+		parsed := parseOption(opt)
+		fb := &fileBuilder{out: &fileBuffer{out: &bytes.Buffer{}}}
+		fb.printOption(toPrint[idx])
+		out = append(out, VerifOption{Name: parsed.qualifiedName, Root: parsed.root, Text: fb.out.out.String()})
+	}
+	return out, nil
+}
